@@ -6,6 +6,7 @@
 package c09
 
 import (
+	"encoding/json"
 	"fmt"
 	"math/rand/v2"
 	"os"
@@ -26,7 +27,7 @@ import (
 
 // Case is one call, one format call or one read.
 type Case struct {
-	K    string   `json:"k"`              // fn | fmt | rd | skip
+	K    string   `json:"k"`              // fn | fmt | rd | skip | probe
 	Fn   string   `json:"fn,omitempty"`   // pkg:name
 	Raw  bool     `json:"raw,omitempty"`  // unevaluated positions get the bare object
 	Args []string `json:"args,omitempty"` // pool names; ":xyz" = a literal keyword
@@ -34,6 +35,7 @@ type Case struct {
 	Src  []byte   `json:"src,omitempty"`  // reader input
 	Via  string   `json:"via,omitempty"`  // reader delivery: bytes | stream | rfs
 	Why  string   `json:"why,omitempty"`  // skip: the finding the construct belongs to
+	Sub  string   `json:"sub,omitempty"`  // probe: kind of the inner case (fn | fmt)
 }
 
 const (
@@ -572,26 +574,20 @@ func buildArg(scope *slip.Scope, po *poolObj) (slip.Object, string) {
 	return obj, ""
 }
 
-func execFn(x *fw.Ctx, c *Case) {
-	pkgName, _, _ := strings.Cut(c.Fn, ":")
-	x.Cover("pkg:" + pkgName)
-	x.Cover(fmt.Sprintf("arity:%d", min(len(c.Args), 6)))
-	if c.Raw {
-		x.Cover("mode:raw")
-	}
-	scope := newScope()
+// buildForm builds the call form of a function case: the function symbol and
+// one fresh object per argument, quoted where the function evaluates the
+// position. emptyValues tells that (values) sits at an evaluated position.
+func buildForm(scope *slip.Scope, c *Case) (form slip.List, emptyValues bool, herr string) {
 	fi := slip.FindFunc(c.Fn)
 	if fi == nil {
-		x.Fail("harness-nofunc", "function %s not found", c.Fn)
-		return
+		return nil, false, fmt.Sprintf("function %s not found", c.Fn)
 	}
 	var se skipEvaler
 	if c.Raw {
 		_ = sl.Catch(func() { se, _ = fi.Create(slip.List{}).(skipEvaler) })
 	}
-	form := make(slip.List, 0, len(c.Args)+1)
+	form = make(slip.List, 0, len(c.Args)+1)
 	form = append(form, slip.Symbol(c.Fn))
-	emptyValues := false // (values) at an evaluated position
 	for i, a := range c.Args {
 		if strings.HasPrefix(a, ":") {
 			form = append(form, slip.Symbol(a))
@@ -599,13 +595,11 @@ func execFn(x *fw.Ctx, c *Case) {
 		}
 		po := poolIndex[a]
 		if po == nil {
-			x.Fail("harness-pool", "unknown pool object %s", a)
-			return
+			return nil, false, "unknown pool object " + a
 		}
-		obj, herr := buildArg(scope, po)
-		if herr != "" {
-			x.Fail("harness-pool", "%s", herr)
-			return
+		obj, e := buildArg(scope, po)
+		if e != "" {
+			return nil, false, e
 		}
 		raw := se != nil && se.SkipArgEval(i)
 		switch {
@@ -620,16 +614,35 @@ func execFn(x *fw.Ctx, c *Case) {
 			form = append(form, slip.List{slip.Symbol("quote"), obj})
 		}
 	}
-	steps = 0
+	return
+}
+
+func fnContext(c *Case) string {
 	ctx := "fn=" + sigName(c.Fn)
 	if c.Raw {
 		ctx += " raw"
 	}
 	if len(c.Args) <= 2 {
-		ctx += " args=" + classesOf(c.Args)
-	} else {
-		ctx += " args=3+"
+		return ctx + " args=" + classesOf(c.Args)
 	}
+	return ctx + " args=3+"
+}
+
+func execFn(x *fw.Ctx, c *Case) {
+	pkgName, _, _ := strings.Cut(c.Fn, ":")
+	x.Cover("pkg:" + pkgName)
+	x.Cover(fmt.Sprintf("arity:%d", min(len(c.Args), 6)))
+	if c.Raw {
+		x.Cover("mode:raw")
+	}
+	scope := newScope()
+	form, emptyValues, herr := buildForm(scope, c)
+	if herr != "" {
+		x.Fail("harness-pool", "%s", herr)
+		return
+	}
+	steps = 0
+	ctx := fnContext(c)
 	markContext(ctx)
 	a0 := allocBytes()
 	var res slip.Object
@@ -693,8 +706,10 @@ func exec(x *fw.Ctx, c Case) {
 		}()
 	}
 	switch c.K {
-	case "": // the null witness of a finding that cannot be re-run (hangs)
+	case "": // a null witness
 		x.Trivial()
+	case "probe":
+		execProbe(x, &c)
 	case "skip":
 		x.Trivial()
 		x.Cover("avoided:" + c.Why)
@@ -724,7 +739,7 @@ func init() {
 		ID: "C09",
 		Rule: "(1) every exported function of every linked package (run-time enumeration; documented denylist of functions whose purpose is an effect outside " +
 			"the process or blocking) in quoted-argument mode and, for special forms/macros, additionally with the bare objects at unevaluated positions, x every 0-, 1- " +
-			"and 2-tuple of a pool of 58 fresh representative objects (thorough: exhaustive; quick: all 0/1-tuples, all pairs of a 16-object pool, a seeded sample of " +
+			"and 2-tuple of a pool of 58 fresh representative objects (thorough: exhaustive; quick: all 0/1-tuples, all pairs of a 17-object pool, a seeded sample of " +
 			"the rest), x every 3-tuple of a 14-object pool for functions that accept 3 arguments, x every documented &key with every pool value behind plausible " +
 			"required arguments, plus seeded 4..5-tuples and keyword combinations; (2) format control strings: every directive x modifier x parameter shape x pool " +
 			"argument, block/unbalanced templates, then seeded compositions; (3) reader: every byte string of length <=3 over a 40-byte alphabet, all #-dispatch " +
@@ -746,3 +761,90 @@ func init() {
 		},
 	})
 }
+
+// ---------------------------------------------------------------------------
+// Probes: witnesses of findings that never return. A construct that hangs or
+// exhausts memory cannot be part of the case list (each costs the watchdog
+// time and a worker), but its finding should still be re-observed on every
+// run, and be seen to disappear when it is repaired. A probe case
+// ({"k":"probe","sub":"fn"|"fmt", ...the inner case...}) runs the inner call
+// in a process of its own (this binary, -sub c09-probe) under the worker's
+// address-space cap and waits probeSecs for it. No outcome within that time,
+// or death by memory exhaustion, is reported as `hang-or-oom <construct>`;
+// the calls are microsecond-scale when they work, so the margin is 10^6.
+const probeSecs = 4
+
+func probeSig(c *Case) string {
+	if c.Sub == "fmt" {
+		return sigName(fmt.Sprintf("hang-or-oom fmt ctl=%q args=%s", c.Ctl, classesOf(c.Args)))
+	}
+	return "hang-or-oom " + fnContext(c)
+}
+
+func execProbe(x *fw.Ctx, c *Case) {
+	inner := *c
+	inner.K = c.Sub
+	raw, _ := json.Marshal(inner)
+	dir := os.Getenv("VERIF_WORKDIR")
+	if dir == "" {
+		dir = os.TempDir()
+	}
+	x.Cover("probes")
+	res := fw.RunSub("c09-probe", []string{string(raw)}, nil, dir, probeSecs*time.Second)
+	what := renderCall(&inner)
+	if c.Sub == "fmt" {
+		what = renderFmt(c.Ctl, c.Args)
+	}
+	obs := map[string]any{"call": what, "timed-out": res.TimedOut, "exit": res.Exit, "stdout": string(res.Stdout)}
+	x.Observe(obs)
+	switch {
+	case res.TimedOut:
+		x.Fail(probeSig(c), "%s => no outcome after %d s in a process of its own (hang)", what, probeSecs)
+	case res.Exit != 0 && strings.Contains(string(res.Stderr), "out of memory"):
+		x.Fail(probeSig(c), "%s => the process died: fatal error: out of memory", what)
+	case res.Exit != 0:
+		x.Fail("probe-died "+probeSig(c), "%s => probe process ended with status %d: %s", what, res.Exit, firstLines(string(res.Stderr), 5))
+	default:
+		x.Cover("probe-returned")
+	}
+}
+
+func firstLines(s string, n int) string {
+	ls := strings.Split(s, "\n")
+	if n < len(ls) {
+		ls = ls[:n]
+	}
+	return strings.Join(ls, "\n")
+}
+
+func probeMain(args []string) int {
+	var c Case
+	if len(args) != 1 || json.Unmarshal([]byte(args[0]), &c) != nil {
+		fmt.Fprintln(os.Stderr, "usage: -sub c09-probe <case json>")
+		return 2
+	}
+	workerInit() // same address-space cap as a worker
+	scope := newScope()
+	var err *sl.Err
+	switch c.K {
+	case "fn":
+		form, _, herr := buildForm(scope, &c)
+		if herr != "" {
+			fmt.Fprintln(os.Stderr, herr)
+			return 3
+		}
+		err = sl.Catch(func() { _ = scope.Eval(form, 0) })
+	case "fmt":
+		var herr string
+		if _, err, herr = fmtCall(scope, c.Ctl, c.Args); herr != "" {
+			fmt.Fprintln(os.Stderr, herr)
+			return 3
+		}
+	default:
+		return 2
+	}
+	fmt.Printf("outcome: %s\n", classify(err).kind)
+	return 0
+}
+
+func init() { fw.RegisterSub("c09-probe", probeMain) }
